@@ -395,6 +395,11 @@ ViolC08(g, prev, r, g2) ==
   \cup (IF Op(r) = "send" /\ Opens(p) /\ ~r.panic /\ HasErr(r.out) /\ SendsK(r.out, {p.kind}) = <<>>
            /\ p.pid \in before /\ p.pid \notin relS
         THEN {"C08c-refusal-without-release"} ELSE {})
+  \* an identifier is released by the acknowledgement that MATCHES its exchange, not by one of another kind
+  \cup (IF ~r.panic /\ IsRecv(r, {"suback", "unsuback", "puback", "pubrec", "pubcomp"}) /\ p.pid \in relS /\ p.pid # 0
+           /\ ~( (p.kind = "suback" /\ p.pid \in g.sub) \/ (p.kind = "unsuback" /\ p.pid \in g.unsub)
+                 \/ (p.kind \in {"puback", "pubrec", "pubcomp"} /\ AwaitOf(g, p.pid) = p.kind) )
+        THEN {"C08c-released-by-wrong-acknowledgement"} ELSE {})
   \* "never leaked": a send that reports nothing, transmits nothing and stores nothing must not keep the identifier it
   \* carried - nothing will ever complete (or release) that exchange
   \cup (IF Op(r) = "send" /\ Opens(p) /\ ~r.panic /\ ~HasErr(r.out) /\ SendsK(r.out, {p.kind}) = <<>> /\ p.pid \in before
@@ -567,7 +572,10 @@ ViolC11(g, prev, r, g2) ==
   (IF ~GateAllows(g, p) /\ sent THEN {"C11a-forbidden-packet-sent"} ELSE {})
   \cup (IF GateAllows(g, p) /\ g.conn = "connected" /\ ~sent THEN {"C11a-allowed-packet-not-sent"} ELSE {})
   \cup (IF GateAllows(g, p) /\ p.kind \in {"connect", "connack", "auth"} /\ ~sent THEN {"C11a-allowed-packet-not-sent"} ELSE {})
-  \cup (IF GateAllows(g, p) /\ g.conn # "connected" /\ p.kind \in {"publish", "pubrel"} /\ ~sent /\ HasErr(r.out)
+  \* (a refusal that names a limit - the library keeps the last connection's Receive Maximum / Maximum Packet Size in
+  \* force until the next CONNECT - is not the gate's refusal)
+  \cup (IF GateAllows(g, p) /\ g.conn # "connected" /\ p.kind \in {"publish", "pubrel"} /\ ~sent
+           /\ HasErrNamed(r.out, {"PacketNotAllowedToSend", "VersionMismatch"})
         THEN {"C11a-offline-packet-refused"} ELSE {})
   \cup (IF ~GateAllows(g, p) /\ ~(HasErr(r.out) /\ onlyErrRel) THEN {"C11b-refusal-events"} ELSE {})
   \cup (IF ~GateAllows(g, p) /\ Opens(p) /\ p.pid \in g.used /\ p.pid \notin RelSet(r.out) THEN {"C11b-refusal-keeps-id"} ELSE {})
@@ -634,10 +642,30 @@ ViolC17d(g, prev, r, g2) ==
   IF r.shadow = "fixed" /\ ~r.panic /\ ~(SameEvents(r.out, r.outF) /\ r.obs = r.obsF)
   THEN {"C17d-undetermined-differs-from-fixed-version"} ELSE {}
 
+(* what a restore keeps of an export: QoS 0 entries and later entries of an identifier already seen are skipped *)
+RECURSIVE KeptFrom(_, _, _)
+KeptFrom(pkts, i, acc) ==
+  IF i > Len(pkts) THEN acc
+  ELSE LET e == pkts[i] IN
+       IF (e.kind = "publish" /\ e.qos = 0) \/ (\E j \in DOMAIN acc : acc[j].pid = e.pid) THEN KeptFrom(pkts, i + 1, acc)
+       ELSE KeptFrom(pkts, i + 1, Append(acc, StAbs(e)))
+KeptOf(pkts) == KeptFrom(pkts, 1, <<>>)
+
 ViolC16(g, prev, r, g2) ==
   LET resF == SendsK(r.outF, {"publish", "pubrel"})
       res  == SendsK(r.out, {"publish", "pubrel"})
   IN
+  \* malformed exports (the same identifier twice, QoS 0 entries): skipped without panic AND without a trace - what is
+  \* kept is the first entry of every identifier, and exactly those identifiers are in use / awaited
+  (IF Op(r) = "restore" /\ r.panic THEN {"C16-restore-panics"} ELSE {})
+  \cup (IF Op(r) = "restore" /\ ~r.panic /\ StoredAbs(r.obs.stored) # KeptOf(r.call.pkts) THEN {"C16-restore-content"} ELSE {})
+  \cup (IF Op(r) = "restore" /\ ~r.panic
+           /\ ~( SeqToSet(r.dig.puback) = { e.pid : e \in { x \in SeqToSet(KeptOf(r.call.pkts)) : x.kind = "publish" /\ x.qos = 1 } }
+                 /\ SeqToSet(r.dig.pubrec) = { e.pid : e \in { x \in SeqToSet(KeptOf(r.call.pkts)) : x.kind = "publish" /\ x.qos = 2 } }
+                 /\ SeqToSet(r.dig.pubcomp) = { e.pid : e \in { x \in SeqToSet(KeptOf(r.call.pkts)) : x.kind = "pubrel" } }
+                 /\ SeqToSet(r.dig.used) = { e.pid : e \in SeqToSet(KeptOf(r.call.pkts)) } )
+        THEN {"C16-skipped-entry-leaves-trace"} ELSE {})
+  \cup
   \* "if at ANY point the application exports ...": every step is a possible export point, so what would be exported
   \* must at every step be exactly the accepted-and-not-completed messages in the order they were accepted
   (IF g2.persistent /\ ~HandshakeDone(r) /\ Op(r) \notin {"restore", "crash", "new"} /\ ~r.panic
@@ -666,6 +694,9 @@ Resync(g2, r, v) ==
      !.twinOff = @ \/ "C11d-checked-send-differs-from-send" \in v,
      !.used = IF idv THEN seen \cup { x \in @ : x > 40 } ELSE @,
      !.held = IF idv THEN { x \in @ : x \in seen \/ x > 40 } ELSE @,
+     !.await = IF idv THEN { e \in @ : e.pid \in seen \/ e.pid > 40 } ELSE @,
+     !.sub = IF idv THEN { x \in @ : x \in seen \/ x > 40 } ELSE @,
+     !.unsub = IF idv THEN { x \in @ : x \in seen \/ x > 40 } ELSE @,
      !.handled = IF "C07c-handled-set" \in v THEN SeqToSet(r.obs.qos2) ELSE @,
      !.skew = IF "C12a-vacancy" \in v
               THEN r.obs.vacancy - (IF g2.peerRM > Cardinality(g2.inflight) THEN g2.peerRM - Cardinality(g2.inflight) ELSE 0)
